@@ -26,6 +26,8 @@ SCRIPTS = {
 MT_SCRIPTS = {"ok": ("a = 1;", 3, 0), "err": ('1 + "x";', 3, 3), "long": (" ".join("a = %d;" % i for i in range(12)), 6, 0),
               # a loop without instructions in its body: it ends by a stop/abort only (a 1.5 s time limit is the safety net)
               "emptyloop": ('for "_i" from 0 to 1 step 0 do {};', 3, 0)}
+MT_SCRIPTS["sliced"] = (MT_SCRIPTS["long"][0], 6, 0)      # the same statements scheduled in slices of 6 instructions: requests are polled between the slices
+MT_SLICE = {"sliced": 6}
 MT_LIMIT = {"emptyloop": 3000}
 MT_LAG_MS = 1500       # an executor that is still running this long after the request flag was written did not take it up
 
@@ -37,7 +39,7 @@ def mc_cfg(name, ideal, err, calls_e="any", calls_c="any", observed=None, work=3
         return "<<>>" if x == "any" else "<<" + ", ".join('"%s"' % a for a in x) + ">>"
     recs = []
     for o in observed or []:
-        recs.append('[e |-> %s, c |-> %s, state |-> "%s", loaded |-> %s, after |-> %d]' % (tl(o["e"]), tl(o["c"]), o["state"], "TRUE" if o["loaded"] else "FALSE", o.get("after", 0)))
+        recs.append('[e |-> %s, c |-> %s, state |-> "%s", loaded |-> %s, after |-> %d, overlap |-> %d]' % (tl(o["e"]), tl(o["c"]), o["state"], "TRUE" if o["loaded"] else "FALSE", o.get("after", 0), o.get("overlap", 0)))
     mod = "gen_%s" % name
     with open(os.path.join(vlib.SPEC, mod + ".tla"), "w") as f:
         f.write("---- MODULE %s ----\nEXTENDS Control_MC\nDefE == %s\nDefC == %s\nDefObs == {%s}\n====\n" % (mod, tl(calls_e), tl(calls_c), ", ".join(recs)))
@@ -130,7 +132,6 @@ def run(rep, tier, seed, replay):
         mt_cases = []
         ce_all = [["start"], ["start", "start"]]
         cc_all = [["stop"], ["abort"], ["stop", "abort"], ["abort", "abort"], ["start"], ["abort", "start"]]
-        nsched = 120 if tier == "quick" else 1500
         n = 0
         for sname, (text, work, err) in MT_SCRIPTS.items():
             for ce in ce_all:
@@ -142,12 +143,22 @@ def run(rep, tier, seed, replay):
                     for pos in range(0, 14):
                         for burst in (1, 2, 3, 4):
                             scheds.add(tuple(["E"] * pos + ["C"] * burst + ["E"] * 3 + ["C"] * 6))
+                    if sname not in MT_LIMIT:
+                        # every schedule with up to three switches: the executor parks at its a-th scheduling point, the controller
+                        # passes b of its own (calls begin and end at scheduling points too), the executor c more, then the
+                        # controller runs to its end and the executor after it
+                        rb = range(1, 7) if tier == "quick" else range(1, 10)
+                        for a in range(0, 13):
+                            for b in rb:
+                                for c3 in rb:
+                                    scheds.add(tuple(["E"] * a + ["C"] * b + ["E"] * c3 + ["C"] * 12 + ["E"] * 12))
+                    nsched = len(scheds) + (120 if tier == "quick" else 1500)
                     while len(scheds) < nsched and sname not in MT_LIMIT:
                         scheds.add(tuple(rng.choice("EC") for _ in range(rng.randint(6, 22))))
                     for s in sorted(scheds):
                         n += 1
                         mt_cases.append({"id": "m%d" % n, "script": sname, "text": text, "work": work, "err": err, "E": ce, "C": cc, "schedule": list(s)})
-    mev = vlib.run_driver("ctlmt", [dict({k: c[k] for k in ("id", "text", "E", "C", "schedule")}, limit_ms=MT_LIMIT.get(c["script"], 0)) for c in mt_cases], wdir, kind="rel", timeout_s=10, tag="mt")
+    mev = vlib.run_driver("ctlmt", [dict({k: c[k] for k in ("id", "text", "E", "C", "schedule")}, limit_ms=MT_LIMIT.get(c["script"], 0), slice=MT_SLICE.get(c["script"], 0)) for c in mt_cases], wdir, kind="rel", timeout_s=10, tag="mt")
     mby = vlib.events_by_case(mev)
     # outcome per case, grouped per configuration
     configs = {}
@@ -162,6 +173,9 @@ def run(rep, tier, seed, replay):
         grant = next((e for e in crets if e["res"] == "ok" and e["a"] in ("stop", "abort")), None)
         out = {"e": [e["res"] for e in evs if e["e"] == "Ret" and e["t"] == "E"], "c": [e["res"] for e in crets],
                "state": fin["state"], "loaded": fin["nctx"] > 0,
+               # a thread became executor while the other one was parked inside its own executor section (lockstep schedules: the
+               # other thread had not finished what it does as executor)
+               "overlap": min(1, fin.get("overlap", 0)),
                # instructions completed after the first acknowledged stop/abort returned (capped: the bound is what matters)
                # (a run that only the time limit ended although a stop/abort was acknowledged counts as "kept executing")
                # (a loop without instructions never advances the instruction count: there the time the executor went on
@@ -180,11 +194,17 @@ def run(rep, tier, seed, replay):
         observed = [json.loads(o) for o in outs]
         r = mc("ctl_obs", True, err, list(ce), list(cc), observed, work, collect=True)
         rep.add_tlc(r, None)
-        if r.error and "NOTEFFECTIVE" not in r.out and "KEEPSEXECUTING" not in r.out and "NOTALLOWED" not in r.out and not r.ok:
+        if r.error and "NOTEFFECTIVE" not in r.out and "KEEPSEXECUTING" not in r.out and "NOTALLOWED" not in r.out and "TWOEXECUTORS" not in r.out and not r.ok:
             raise vlib.MachineryError("outcome validation failed without verdict: %s" % (r.error or r.out[-1500:]))
         ndrift = r.out.count("NOTALLOWED")
         if ndrift:
             rep.notes.append("model-drift: %d observed outcome(s) of executor %s / controller %s / script %s are not outcomes of the atomic-sections mechanism model (property oracle holds)" % (ndrift, list(ce), list(cc), sname))
+        if "TWOEXECUTORS" in r.out:
+            o = next(x for x in observed if x["overlap"])
+            c0 = outs[json.dumps(o, sort_keys=True)][0]
+            key = "C19/OneExecutor/%s" % sname
+            rep.finding(key, "OneExecutor: executor %s, controller %s, script %s under schedule %s: a call was admitted as executor while the other thread was still inside its own executor section (returns E=%s C=%s)"
+                        % (list(ce), list(cc), sname, "".join(c0["schedule"]), o["e"], o["c"]), {"property": "C19", "kind": "mt", "key": key, "case": c0, "outcome": o})
         if "NOTEFFECTIVE" not in r.out and "KEEPSEXECUTING" not in r.out:
             continue
         for o in observed:
